@@ -280,6 +280,11 @@ func (c *Ctx) sortOf(t types.Type) string {
 }
 
 func (c *Ctx) typeParamSort(tp *types.TypeParam) string {
+	// A type parameter constrained by a method/any interface is modelled as an opaque boxed
+	// value (the Iface sort): values of it only flow and are receivers of interface calls.
+	if it, ok := tp.Constraint().Underlying().(*types.Interface); ok && !hasTypeSet(it) {
+		return SIface
+	}
 	name := "TP_" + sanitizeIdent(tp.Obj().Name())
 	if !c.declared[name] {
 		c.declared[name] = true
@@ -630,7 +635,7 @@ func (c *Ctx) assumeTypeInv(v Term, t types.Type, st *State) {
 	case SInt:
 		c.assume(inRange(v, t))
 	case SSlice:
-		c.assume(Term{fmt.Sprintf("(and (<= 0 (soff %[1]s)) (<= 0 (slen %[1]s)) (<= (slen %[1]s) (scap %[1]s)) (=> (= (sbase %[1]s) pnil) (= (scap %[1]s) 0)))", v.S), SBool})
+		c.assume(Term{fmt.Sprintf("(and (<= 0 (soff %[1]s)) (<= 0 (slen %[1]s)) (<= (slen %[1]s) (scap %[1]s)) (<= (scap %[1]s) 9223372036854775807) (=> (= (sbase %[1]s) pnil) (= (scap %[1]s) 0)))", v.S), SBool})
 		if st != nil {
 			c.assume(Term{fmt.Sprintf("(< (rootid (sbase %s)) %s)", v.S, st.alloc.S), SBool})
 		}
@@ -729,4 +734,22 @@ func sortedKeys[V any](m map[string]V) []string {
 	}
 	sort.Strings(ks)
 	return ks
+}
+
+// hasTypeSet reports whether an interface restricts its type set to specific (core) types.
+func hasTypeSet(it *types.Interface) bool {
+	for i := 0; i < it.NumEmbeddeds(); i++ {
+		switch e := it.EmbeddedType(i).(type) {
+		case *types.Union:
+			return true
+		default:
+			if !types.IsInterface(e) {
+				return true
+			}
+			if u, ok := e.Underlying().(*types.Interface); ok && hasTypeSet(u) {
+				return true
+			}
+		}
+	}
+	return false
 }
